@@ -83,40 +83,44 @@ type jRun struct {
 }
 
 type jOn struct {
-	Kind      string `json:"kind"` // "onmsg"
-	Scheme    string `json:"scheme"`
-	Phase     string `json:"phase"`
-	URL       string `json:"url"`
-	RealFrom  uint16 `json:"real_from"`
-	From      uint16 `json:"from"` // transport sender handed to OnMsg
-	Member    bool   `json:"member"`
-	BcastIn   bool   `json:"bcast_in"`
-	Parsed    bool   `json:"parsed"` // tss.ParseWireMessage accepts the bytes (independently of the adapter)
-	Panic     bool   `json:"panic"`
-	Enq       int    `json:"enq"`
-	AttrKey   string `json:"attr_key"` // decimal; sender the queued message is attributed to
-	AttrIdx   int    `json:"attr_idx"`
-	AttrType  string `json:"attr_type"`
-	AttrBcast bool   `json:"attr_bcast"`
-	Hex       string `json:"hex,omitempty"`
+	Kind      string   `json:"kind"` // "onmsg"
+	Scheme    string   `json:"scheme"`
+	Phase     string   `json:"phase"` // keygen | signing: message captured in that phase; locate: session/sender grid for the slot lookup
+	URL       string   `json:"url"`
+	IDs       []uint16 `json:"ids"` // the receiver's session, sorted by key (= tss-lib's slot order)
+	Self      uint16   `json:"self"`
+	RealFrom  uint16   `json:"real_from"`
+	From      uint16   `json:"from"` // transport sender handed to OnMsg
+	Member    bool     `json:"member"`
+	BcastIn   bool     `json:"bcast_in"`
+	Parsed    bool     `json:"parsed"` // tss.ParseWireMessage accepts the bytes (independently of the adapter)
+	Panic     bool     `json:"panic"`
+	Enq       int      `json:"enq"`
+	AttrKey   string   `json:"attr_key"` // decimal; sender the queued message is attributed to
+	AttrIdx   int      `json:"attr_idx"`
+	AttrType  string   `json:"attr_type"`
+	AttrBcast bool     `json:"attr_bcast"`
+	Hex       string   `json:"hex,omitempty"`
 }
 
 type jMal struct {
-	Kind     string `json:"kind"` // "mal"
-	Scheme   string `json:"scheme"`
-	What     string `json:"what"`
-	Hex      string `json:"hex"`
-	AnyOk    bool   `json:"any_ok"` // bytes decode as a protobuf Any (same decoder the adapter uses)
-	URLHex   string `json:"url_hex"`
-	ClsPanic bool   `json:"cls_panic"`
-	ClsErr   bool   `json:"cls_err"`
-	ClsRound uint8  `json:"cls_round"`
-	ClsBcast bool   `json:"cls_bcast"`
-	From     uint16 `json:"from"`
-	Parsed   bool   `json:"parsed"`
-	OnPanic  bool   `json:"on_panic"`
-	OnEnq    int    `json:"on_enq"`
-	AttrKey  string `json:"attr_key"`
+	Kind     string   `json:"kind"` // "mal"
+	Scheme   string   `json:"scheme"`
+	What     string   `json:"what"`
+	Hex      string   `json:"hex"`
+	AnyOk    bool     `json:"any_ok"` // bytes decode as a protobuf Any (same decoder the adapter uses)
+	URLHex   string   `json:"url_hex"`
+	ClsPanic bool     `json:"cls_panic"`
+	ClsErr   bool     `json:"cls_err"`
+	ClsRound uint8    `json:"cls_round"`
+	ClsBcast bool     `json:"cls_bcast"`
+	From     uint16   `json:"from"`
+	Parsed   bool     `json:"parsed"`
+	OnPanic  bool     `json:"on_panic"`
+	OnEnq    int      `json:"on_enq"`
+	AttrKey  string   `json:"attr_key"`
+	AttrIdx  int      `json:"attr_idx"`
+	IDs      []uint16 `json:"ids"`
 }
 
 // ---------------------------------------------------------------------------------------------- helpers
